@@ -509,7 +509,30 @@ def g_writeval(ctx, F, body, site):
 @guard("pop-expr-back-set")
 def g_pop_expr(ctx, F, body, site):
     # the closure handed to WriteVal::new assigns Some(..) to the captured `back` on every non-error path
-    for cl in F.closures_of(body):
+    top = common.top_fn(F, body)
+
+    def sets_some(cl):
+        """blocks of cl that store Some(..) into a captured variable"""
+        out = []
+        for bi, si, s in cl.assigns():
+            pl = s["pl"]
+            if pl["p"] and isinstance(s["rv"].get("agg"), dict) and s["rv"]["agg"].get("variant") == "Some" and (pl["l"] == 1 or pl["p"][0] == "deref"):
+                out.append(bi)
+        return out
+    # form B: the write closure returns  <fallible>.map(|v| back = Some(v))  -- the inner closure runs exactly when the result is Ok
+    for cl in F.with_closures(top):
+        if cl.kind != "closure":
+            continue
+        for bi, t in cl.calls():
+            if is_callee(t, "std::result::Result::<T, E>::map") and t["dest"]["l"] == 0 and len(t["args"]) > 1:
+                l = op_local(t["args"][1])
+                ty = cl.local_ty(l).peel_refs() if l is not None else None
+                inner = F.fn(ty.d["closure"]) if ty is not None and ty.kind() == "closure" else None
+                if inner is not None:
+                    w = sets_some(inner)
+                    if w and not common.path_to_return_avoiding(inner, w):
+                        return True, ""
+    for cl in [c_ for c_ in F.with_closures(top) if c_.kind == "closure"]:
         writes = []
         for bi, si, s in cl.assigns():
             pl = s["pl"]
